@@ -4,6 +4,7 @@ From Frugal Require Import Bytes Wire Skip Values Desc Spec Encode Decode Checks
 From Frugal.gen Require Import Params.
 From Frugal.proofs Require Import GenOk BytesWire EncodeSpec SizeExact SkipPut DecodeSafe DecodeRefines RoundTrip Corollaries StateProofs BitsetProofs AllocProofs DescMapProofs ConcProofs BufferContract.
 From Frugal.props Require Import Examples.
+From Frugal.proofs Require Import MapOrder.
 Import ListNotations.
 
 Theorem C01_roundtrip : forall env pool sid v rest,
@@ -30,3 +31,31 @@ Example C01_instance :
   decode_object env_ex [] 0 (append_struct env_ex 0 v_ex ++ [1; 2; 3]) (fresh env_ex 0)
   = DOk (norm_top env_ex 0 v_ex, len (append_struct env_ex 0 v_ex)) [1; 2; 3].
 Proof. vm_compute. reflexivity. Qed.
+
+(* ---- "up to map-entry order" (proofs/MapOrder.v) ----
+   Go map iteration order is arbitrary; the model takes the order of the entry list as an input.
+   vperm relates two values that differ only by the order of map entries, at any depth.  Whatever
+   order the encoder iterates in (v' instead of v), the round trip succeeds and returns the
+   normalised value up to map-entry order. *)
+Theorem C01_roundtrip_up_to_order : forall env pool sid v v' rest,
+  params_ok = true -> tables_ok = true -> env_ok env = true -> init_ok env = true ->
+  has_type env (TStruct sid) v = true -> Spec.holders_empty v = true ->
+  enums32 env (TStruct sid) v = true -> req_complete env (TStruct sid) v = true ->
+  (2 * vdepth v + 1 <= S (N.to_nat maxDepthLimit))%nat -> vperm v v' ->
+  exists r', decode_object env pool sid (append_struct env sid v' ++ rest) (fresh env sid)
+             = DOk (r', len (append_struct env sid v')) rest
+             /\ vperm (norm_top env sid v) r'.
+Proof. exact roundtrip_up_to_order. Qed.
+Print Assumptions C01_roundtrip_up_to_order.
+
+(* the enum-width hypothesis matters for maps: two distinct Go keys of an enum type that agree in
+   their low 32 bits collapse on the wire, and which value survives depends on the order *)
+Example C01_order_matters_for_wide_enum_keys :
+  has_type env_enum (TStruct 0) v_enum = true /\ vperm v_enum v_enum'
+  /\ enums32 env_enum (TStruct 0) v_enum = false
+  /\ decode_object env_enum [] 0 (append_struct env_enum 0 v_enum) (fresh env_enum 0)
+     = DOk (VT [VM (Some [(VS 1, VS 20)])] [], len (append_struct env_enum 0 v_enum)) []
+  /\ decode_object env_enum [] 0 (append_struct env_enum 0 v_enum') (fresh env_enum 0)
+     = DOk (VT [VM (Some [(VS 1, VS 10)])] [], len (append_struct env_enum 0 v_enum')) []
+  /\ ~ vperm (VT [VM (Some [(VS 1, VS 20)])] []) (VT [VM (Some [(VS 1, VS 10)])] []).
+Proof. pose proof order_matters_without_keys_distinct as H. tauto. Qed.
